@@ -214,6 +214,7 @@ def preprocess_ts(
             filter_individuals=filter_individuals,
             filter_sites=filter_sites,
             delete_intervals=delete_intervals,
+            **kwargs,
         )
     return tables.tree_sequence()
 
